@@ -698,6 +698,66 @@ fn c18_q_mat4_rows() { ids16!(mat4_rows_body) }
 fn c18_q_mat4_cols() { ids16!(mat4_cols_body) }
 
 // ------------------------------------------------------------------------------------------------
+// C03 with an element type that is not Copy: the nested-array conversions agree on (i,j) and hand over
+// the very elements they were given (the same conversions as above, asserted from C03's point of view:
+// a row-major and a column-major value built from the same nested rows hold token n*i+j at (i,j))
+// ------------------------------------------------------------------------------------------------
+macro_rules! c03_nested_body {
+    ($n:expr, $nn:expr, $R:ident, $C:ident, [$([$($id:expr),+]),+]) => {{
+        let which: u8 = kani::any();
+        kani::assume(which < 4);
+        kani::cover!(which == 0); kani::cover!(which == 1); kani::cover!(which == 2); kani::cover!(which == 3);
+        if which == 0 {
+            let r = rm::$R::<Tok>::from_row_arrays([$([$(Tok::new($id)),+]),+]);
+            let mut i = 0; while i < $n { let mut j = 0; while j < $n { assert!(peek(&r.rows[i][j]) as usize == $n * i + j, "rows: from_row_arrays[i][j] is (i,j)"); j += 1; } i += 1; }
+            let a = r.into_col_arrays();
+            let mut i = 0; while i < $n { let mut j = 0; while j < $n { assert!(peek(&a[j][i]) as usize == $n * i + j, "rows: into_col_arrays[j][i] is (i,j)"); j += 1; } i += 1; }
+            check_drops($nn, |_| 0);
+        } else if which == 1 {
+            let c = cm::$C::<Tok>::from_row_arrays([$([$(Tok::new($id)),+]),+]);
+            let mut i = 0; while i < $n { let mut j = 0; while j < $n { assert!(peek(&c.cols[j][i]) as usize == $n * i + j, "cols: from_row_arrays[i][j] is (i,j)"); j += 1; } i += 1; }
+            let a = c.into_row_arrays();
+            let mut i = 0; while i < $n { let mut j = 0; while j < $n { assert!(peek(&a[i][j]) as usize == $n * i + j, "cols: into_row_arrays[i][j] is (i,j)"); j += 1; } i += 1; }
+            check_drops($nn, |_| 0);
+        } else if which == 2 {
+            // given as columns: token n*i+j is listed at [i][j] = column i, row j
+            let r = rm::$R::<Tok>::from_col_arrays([$([$(Tok::new($id)),+]),+]);
+            let mut i = 0; while i < $n { let mut j = 0; while j < $n { assert!(peek(&r.rows[j][i]) as usize == $n * i + j, "rows: from_col_arrays[c][r] is (r,c)"); j += 1; } i += 1; }
+            let a = r.into_row_arrays();
+            let mut i = 0; while i < $n { let mut j = 0; while j < $n { assert!(peek(&a[j][i]) as usize == $n * i + j, "rows: into_row_arrays after from_col_arrays"); j += 1; } i += 1; }
+            check_drops($nn, |_| 0);
+        } else {
+            let c = cm::$C::<Tok>::from_col_arrays([$([$(Tok::new($id)),+]),+]);
+            let mut i = 0; while i < $n { let mut j = 0; while j < $n { assert!(peek(&c.cols[i][j]) as usize == $n * i + j, "cols: from_col_arrays[c][r] is (r,c)"); j += 1; } i += 1; }
+            let a = c.into_col_arrays();
+            let mut i = 0; while i < $n { let mut j = 0; while j < $n { assert!(peek(&a[i][j]) as usize == $n * i + j, "cols: into_col_arrays round trip"); j += 1; } i += 1; }
+            check_drops($nn, |_| 0);
+        }
+        check_drops($nn, |_| 1);
+    }};
+}
+/// K: fns=Mat2::from_row_arrays,Mat2::from_col_arrays,Mat2::into_row_arrays,Mat2::into_col_arrays,Mat3::from_row_arrays,Mat3::from_col_arrays,Mat3::into_row_arrays,Mat3::into_col_arrays
+/// K: inst=row_major and column_major Mat2/Mat3 of a non-Copy ownership-tracking element | bound=2x2 and 3x3; unwind 11
+/// K: asserts=both layouts agree that nested row/column arrays list element (i,j) where the name says; the elements handed back are the live originals (not dropped, not duplicated); each dropped exactly once at the end
+#[kani::proof]
+#[kani::unwind(11)]
+fn c03_q_nested_arrays_noncopy() {
+    if kani::any() {
+        c03_nested_body!(2, 4, Mat2, Mat2, [[0, 1], [2, 3]])
+    } else {
+        c03_nested_body!(3, 9, Mat3, Mat3, [[0, 1, 2], [3, 4, 5], [6, 7, 8]])
+    }
+}
+/// K: fns=Mat4::from_row_arrays,Mat4::from_col_arrays,Mat4::into_row_arrays,Mat4::into_col_arrays
+/// K: inst=row_major and column_major Mat4 of a non-Copy ownership-tracking element | bound=4x4; unwind 18
+/// K: asserts=both layouts agree that nested row/column arrays list element (i,j) where the name says; the elements handed back are the live originals; each dropped exactly once at the end
+#[kani::proof]
+#[kani::unwind(18)]
+fn c03_q_nested_arrays_noncopy_mat4() {
+    c03_nested_body!(4, 16, Mat4, Mat4, [[0, 1, 2, 3], [4, 5, 6, 7], [8, 9, 10, 11], [12, 13, 14, 15]])
+}
+
+// ------------------------------------------------------------------------------------------------
 // slice views alias the value's own storage
 // ------------------------------------------------------------------------------------------------
 
